@@ -52,6 +52,10 @@ class Stop(Exception):
     pass
 
 
+class NextIteration(Exception):
+    pass
+
+
 def mini(e, env):
     """tiny evaluator for the naming code (strings only)"""
     if isinstance(e, ast.Constant):
@@ -115,6 +119,18 @@ def run_body(stmts, env, calls):
             name = mini(c.args[1], env) if len(c.args) > 1 else None
             opexpr = canon(c.args[2]) if len(c.args) > 2 else None
             calls.append((name, opexpr, kw, s.lineno))
+        elif isinstance(s, ast.Expr) and isinstance(s.value, ast.Call) and isinstance(s.value.func, ast.Name) and s.value.func.id == 'setattr' and len(s.value.args) == 3:
+            # installing something under a special-method name without going through _defer_method
+            c = s.value
+            name = mini(c.args[1], env)
+            v = c.args[2]
+            if isinstance(v, ast.Call) and isinstance(v.func, ast.Name) and v.func.id == 'getattr' and len(v.args) >= 2:
+                other = mini(v.args[1], env)
+                calls.append((name, 'alias-of ' + str(other), {'alias': other}, s.lineno))
+            else:
+                calls.append((name, 'direct ' + canon(v)[:60], {'direct': True}, s.lineno))
+        elif isinstance(s, ast.Continue):
+            raise NextIteration()
         elif isinstance(s, ast.Expr) and isinstance(s.value, ast.Constant):
             continue
         else:
@@ -166,6 +182,19 @@ def check_tables(ctx):
             for tn in tabs:
                 if tn + '[' in unparse(n.value):
                     src_of[n.targets[0].id] = tn
+    # module-level lists of operator functions (usable in 'x in LIST' tests of the naming code)
+    module_lists = {}
+    for n in tree.body:
+        if isinstance(n, ast.Assign) and isinstance(n.targets[0], ast.Name) and isinstance(n.value, (ast.List, ast.Tuple, ast.Set)):
+            vals = []
+            for e in n.value.elts:
+                if isinstance(e, ast.Attribute) and isinstance(e.value, ast.Name) and e.value.id == 'operator':
+                    vals.append('operator.' + e.attr)
+                elif isinstance(e, ast.Name):
+                    vals.append('operator.' + e.id if e.id in ('len',) else e.id)
+                elif isinstance(e, ast.Constant):
+                    vals.append(e.value)
+            module_lists[n.targets[0].id] = vals
     nops = 0
     for lp in loops:
         if not (isinstance(lp.iter, ast.Name) and lp.iter.id in src_of and isinstance(lp.target, ast.Name)):
@@ -179,9 +208,13 @@ def check_tables(ctx):
             for opn in names:
                 nops += 1
                 env = {lp.target.id + '.__name__': opn, lp.target.id: 'operator.' + opn}
+                env.update(module_lists)
                 calls = []
                 try:
-                    run_body(lp.body, env, calls)
+                    try:
+                        run_body(lp.body, env, calls)
+                    except NextIteration:
+                        pass
                 except Stop as s:
                     ctx.undecided(rule, fi, '%s[%s] %s' % (tn, cat, opn), 'cannot fold the naming code (%s)' % s, lp.lineno, clause='a')
                     continue
@@ -190,6 +223,14 @@ def check_tables(ctx):
                     ctx.violation(rule, fi, st, 'the operator is installed %d times' % len(calls), lp.lineno, clause='a')
                     continue
                 name, opexpr, kw, line = calls[0]
+                if kw.get('alias') is not None or kw.get('direct'):
+                    base = DUNDER.get(opn)
+                    want = ('__r' + base[2:]) if (reflected and base) else base
+                    if reflected:
+                        ctx.violation('R9-reflected-swap', fi, '%s installed as %s = %s' % (st, name, opexpr), 'the reflected method is an alias of another method instead of a swapped BinaryExpr: for const <op> field the operands are evaluated in the wrong order (visible for non-commutative operand types such as lists and bytes)', line, clause='b')
+                    else:
+                        ctx.violation(rule, fi, '%s installed as %s = %s' % (st, name, opexpr), 'the operator is not installed through the deferred-expression constructor', line, clause='a')
+                    continue
                 base = DUNDER.get(opn)
                 if base is None:
                     ctx.undecided(rule, fi, st, 'operator %s is not in the checker\'s special-method table' % opn, line, clause='a')
